@@ -83,6 +83,9 @@ static void b_pca(void) {
   long code = vx_choose("matrix", (int)ncode);
   int pert = (shp == 3 && !vx_thorough()) ? 0 : vx_choose_dev("perturb", 4), npc = 1 + vx_choose("npc-1", c + 2);   /* quick: 3x3 exact only */
   matrix *m = from_digits(code, r, c, 3, pert);
+  /* uncentred fits also over {-2,1,2} (digit 0 -> -2): a dominant column orthogonal to the constant columns, e.g. (2,-2) beside
+   * (1,1), exists there, so the first component can remove it exactly and leave a residual of constant columns behind a null one */
+  if (scaling == -1 && vx_choose("alphabet", 2)) for (int i = 0; i < r; i++) for (int j = 0; j < c; j++) if (m->data[i][j] < 0.5) m->data[i][j] -= 2.0;
   ld ss; rmat *e = center_scale(m, scaling, &ss); int maxrank = (scaling >= 0 ? (r - 1 < c ? r - 1 : c) : (r < c ? r : c)); int rank = num_rank(e, ss);
   const char *cls = rank_class(rank, npc, maxrank);
   PCAMODEL *mod; NewPCAModel(&mod);
@@ -307,7 +310,7 @@ static void body(void) {
 }
 
 int main(int argc, char **argv) {
-  vx_describe("alphabet", "PCA: every matrix over {0,1,2} of shape 2x2, 3x2, 2x3, 3x3 x scaling {-1,0,1} x npc 1..cols+2 x {exact, 3 indexed 2^-20 perturbations (3x3: thorough only)}; PLS2: orthogonal integer X (4 or 8 rows, 2-3 columns, 4 column scalings) with 2 responses Y = X B for every B over {-1,0,1}^(3x2), nlv 1..3, scaling {-1,0}; PLS: every X over {0,1,2} of shape 3x2 (thorough: + 4x2) x every y in {0,1}^n x nlv 1..3 x scaling {0,1}; CPCA: 2 blocks of every 3x1 / 3x2 matrix over {0,1} x scaling {0,1} x npc 1..3; KMeans: every multiset of <= 5 points from a 3-point lattice x k 1..4 x 4 initialisers x 2 seeds; MLR LOO / bootstrap validation on collinear, constant-column and regular X, every group count 1..n (and PLS, LDA for the single-group request); Nelder-Mead on constant, linear, |x| and quadratic objectives, zero and non-zero steps, 0/10/2000 iterations");
+  vx_describe("alphabet", "PCA: every matrix over {0,1,2} (uncentred fits also over {-2,1,2}) of shape 2x2, 3x2, 2x3, 3x3 x scaling {-1,0,1} x npc 1..cols+2 x {exact, 3 indexed 2^-20 perturbations (3x3: thorough only)}; PLS2: orthogonal integer X (4 or 8 rows, 2-3 columns, 4 column scalings) with 2 responses Y = X B for every B over {-1,0,1}^(3x2), nlv 1..3, scaling {-1,0}; PLS: every X over {0,1,2} of shape 3x2 (thorough: + 4x2) x every y in {0,1}^n x nlv 1..3 x scaling {0,1}; CPCA: 2 blocks of every 3x1 / 3x2 matrix over {0,1} x scaling {0,1} x npc 1..3; KMeans: every multiset of <= 5 points from a 3-point lattice x k 1..4 x 4 initialisers x 2 seeds; MLR LOO / bootstrap validation on collinear, constant-column and regular X, every group count 1..n (and PLS, LDA for the single-group request); Nelder-Mead on constant, linear, |x| and quadratic objectives, zero and non-zero steps, 0/10/2000 iterations");
   vx_describe("oracle", "the call returns before the iteration tick ceiling (1e5 kernel calls; converging fits of these sizes need < 1e4); components up to the numerical rank (singular value^2 > 1e-9 of total) are finite, orthonormal, residual-orthogonal; explained variance beyond the rank is 0 and never NaN");
   vx_set_shard_depth(3);
   vx_set_dev_bound(1, 1);
